@@ -304,43 +304,45 @@ def publication_rule(ctx, r3, r5=None):
 
 def oti_announced_rule(ctx, rule):
     """the FEC OTI of an object is announced at one of two places: on FDT-Instance (the session OTI, Fdt::get_fdt_instance) or on the File element
-    (FileDesc::to_file_xml).  A scheme for which the instance-level attributes are left out must be one for which every File carries them."""
+    (FileDesc::to_file_xml).  Both call Oti::get_attributes(&self.oti) under a test of self.oti.fec_encoding_id; every scheme must be covered by
+    one of the two calls (the per-object override of to_file_xml is optional and does not count)."""
     prog = ctx.prog
-    sets = {}
-    for fn_, want in ((FDT + "::get_fdt_instance", "None"), ("sender::filedesc::FileDesc::to_file_xml", "Some")):
+    adts = [a_ for p_, a_ in prog.adts.items() if p_.endswith("oti::FECEncodingID")]
+    if not adts:
+        raise model.AnchorMissing("FECEncodingID not found")
+    ALL = set(v_["name"] for v_ in adts[0]["variants"])
+    covered = {}
+    for fn_ in (FDT + "::get_fdt_instance", "sender::filedesc::FileDesc::to_file_xml"):
         f = prog.fn(fn_)
-        sl = Slicer(f.body)
         fl = Flow(f.body)
-        names = [n for n in sl.var_defs() if re.match(r"^oti_attributes(~\d+)?$", n)]
-        out, wild = set(), False
-        found = False
-        for n in names:
-            for (e, bb) in value_defs(sl, n):
-                ex = sl.expand(e)
-                isnone = ex[0] == "aggr" and ex[2] == "None"
-                issome = ex[0] == "aggr" and ex[2] == "Some" and any(c[0] == "call" and c[1].endswith("Oti::get_attributes") and
-                                                                     re.search(r"^&*self\.oti$", show(c[2][0])) for c in walk(ex))
-                if (want == "None" and isnone) or (want == "Some" and issome):
-                    found = True
-                    hv = held_variants(fl.facts_at(bb), lambda x: "fec_encoding_id" in show(x))
-                    if hv:
-                        out |= set(hv)
-                    else:
-                        wild = True
-        sets[want] = (out, wild, found, f)
-    (omit, omit_wild, f1, gi) = sets["None"]
-    (always, always_wild, f2, tf) = sets["Some"]
+        got = set()
+        sites = [s_ for s_ in call_sites(f, lambda p, c: p.endswith("Oti::get_attributes")) if re.search(r"^&*self\.oti$", show(s_.expr[2][0]))]
+        for s_ in sites:
+            pos, neg = set(), set()
+            for (a_, t_) in fl.facts_at(s_.bb):
+                if a_[0] == "variant" and "fec_encoding_id" in show(a_[1]) and a_[2] in ALL:
+                    (pos if t_ else neg).add(a_[2])
+                elif a_[0] == "variant_in" and "fec_encoding_id" in show(a_[1]) and t_:
+                    pos |= set(a_[2]) & ALL
+                elif a_[0] == "eq":
+                    for (x_, y_) in ((a_[1], a_[2]), (a_[2], a_[1])):
+                        m_ = re.search(r"FECEncodingID::(\w+)", show(y_))
+                        if m_ and "fec_encoding_id" in show(x_) and m_.group(1) in ALL:
+                            (pos if t_ else neg).add(m_.group(1))
+            got |= pos if pos else (ALL - neg)
+        covered[fn_] = (got, sites, f)
+    gi_set, gi_sites, gi = covered[FDT + "::get_fdt_instance"]
+    tf_set, tf_sites, tf = covered["sender::filedesc::FileDesc::to_file_xml"]
+    if not gi_sites and not tf_sites:
+        raise model.AnchorMissing("neither get_fdt_instance nor to_file_xml calls Oti::get_attributes(&self.oti)")
     key = "FEC OTI announced on FDT-Instance or on every File"
-    if not f2 and (omit or omit_wild):
-        raise model.AnchorMissing("to_file_xml: the arm that always writes the OTI of the object was not recognised")
-    if omit_wild and not always_wild:
-        rule.violation(key, "get_fdt_instance leaves the session FEC OTI out under a catch-all arm, to_file_xml writes per-File OTI only for %s" % sorted(always), loc(gi.sp))
-    elif omit - always and not always_wild:
-        rule.violation(key, "for %s neither the FDT-Instance element (get_fdt_instance leaves the session OTI out) nor the File element (to_file_xml writes "
-                            "it only for %s or a per-object override) carries the FEC OTI: a receiver that relies on the FDT cannot decode the object" % (
-                                sorted(omit - always), sorted(always)), loc(gi.sp))
+    missing = ALL - gi_set - tf_set
+    if missing:
+        rule.violation(key, "for %s neither the FDT-Instance element (get_fdt_instance writes the session OTI for %s) nor the File element (to_file_xml always "
+                            "writes it for %s only) carries the FEC OTI: a receiver that relies on the FDT cannot decode such an object" % (
+                                sorted(missing), sorted(gi_set) or "no scheme", sorted(tf_set) or "no scheme"), loc(gi.sp))
     else:
-        rule.ok(key, "instance-level OTI omitted for %s, per-File OTI always written for %s" % (sorted(omit) or "no scheme", sorted(always) or "none"), loc(gi.sp))
+        rule.ok(key, "instance-level OTI for %s, per-File OTI always for %s" % (sorted(gi_set), sorted(tf_set)), loc(gi.sp))
 
 
 def run(ctx):
